@@ -359,6 +359,9 @@ class FormulaGrader(ItemGrader, MathMixin):
         # But the answer we're testing against might only merit partial credit.
         for result in results:
             result['grade_decimal'] *= answer['grade_decimal']
+            if result['ok'] is not True:
+                # e.g. comparer partial credit against a zero-credit answer is no credit at all
+                result['ok'] = self.grade_decimal_to_ok(result['grade_decimal'])
         consolidated = self.consolidate_results(results, answer, self.config['failable_evals'])
 
         return consolidated, functions_used
